@@ -14,7 +14,9 @@ def run(ctx):
         vlib.model_check(ctx, 'OciRegistryMC.tla', 'OciRegistryMC_up.cfg', what='uploads, mounts, all range pairs on 0/1/2-byte blobs')
     rc.reg_check(ctx, STACKS_Q if quick else STACKS_T, STRICT, n_tlc=8 if quick else 200, n_rand=24 if quick else 800,
                  cover='OciRegistryCover_all.cfg', cover_sample=200 if quick else 4000, wire=300 if quick else -1,
-                 profiles=('range', 'all', 'upload'), tlc_cfg='OciRegistryGenNoUp.cfg', honest=True, label='all stacks vs OciRegistry (content)')
+                 profiles=('range', 'all', 'upload'), tlc_cfg='OciRegistryGenNoUp.cfg',
+                 # walks of pushes, deletes and range reads at every boundary pair (ends before, at, one past and beyond the blob's end)
+                 extra_gen=[('OciRegistryGenRange.cfg', 12 if quick else 300, 18)], honest=True, label='all stacks vs OciRegistry (content)')
     # third sentence of the property: corrupted content read through the client never ends in a clean EOF
     # (client fault family: model check of CorruptNeverCleanEOF, its response scripts through the real client, validation)
     import c18
